@@ -29,7 +29,7 @@ def reg(pid, units, explanation, assumptions=(), level_text='', level_note='', t
 NOT_BUILT = 'unit not built yet in this session (see DESIGN.md work plan)'
 NOT_APPLICABLE = {
     'C02': NOT_BUILT, 'C08': NOT_BUILT, 
-    'C13': NOT_BUILT, 'C15': NOT_BUILT, 'C17': NOT_BUILT,
+    'C13': NOT_BUILT, 'C15': NOT_BUILT,
     'C03': 'partition refinement is written as closure chains over BTreeMap<StateID, BTreeMap<CharClassID, Vec<StateID>>>; Verus cannot ingest it without a rewrite that would be a model, and the Kani stand-in did not terminate at 3 states x 2 classes (25 min, 5.7 GB)',
     'C14': 'concurrency: Kani has no thread support and Verus would need its own permission types in place of RwLock/LazyLock/Arc (a rewrite, i.e. a model)',
     'C16': 'behaviour lives in the expansion of serde derives and in serde_json; there is no function of scnr to put a contract on',
@@ -71,3 +71,9 @@ reg('C11', ['u_mode', 'u_iter'],
 reg('C12', ['u_dfa', 'u_mode', 'u_iter'],
     'every operation contract gives result and new state as a function of (old abstract state, arguments, immutable configuration): scratch buffers are not part of DfaCore and find_from clears them (its postcondition does not mention their old value); FindMatchesImpl::new yields (input, cursor 0, mode 0) for any scanner value, whatever mode it was in',
     [WF, CLS, ITER, 'Scanner::find_iter hands a clone to the iterator: derived Clone copies (E4 assumption); two iterators share only Arc<..> data that is immutable through & (Rust aliasing rules, type-level argument)'])
+
+reg('C17', ['u_min'],
+    'every conversion between a group/state index and its id type in the minimizer is the identity for indices up to the width of StateID: find_group returns the index of the first group containing the state (not its value modulo the id width); one generated losslessness obligation per `as StateGroupIDBase` / `as StateIDBase` cast in minimizer.rs and compiled_dfa.rs',
+    ['automata have at most u32::MAX states (width of StateID; not reachable in addressable memory)', 'derived Ord on StateID is the integer order (BTreeSet key model)',
+     'that the rest of the minimizer is correct for large automata is C03 (not decided)'],
+    technique='Verus function contract on find_group + self-generated cast-losslessness obligations')
